@@ -783,12 +783,15 @@ func impl() {
 						wkt.Encode(poison)
 					}
 					// (bit 3) … and/or the error path was taken by the call immediately before: an unsupported type
+					// (a panic of THIS call is not the verdict of the line: unsupported types have their own lines)
 					if h.Sum32()&8 == 8 {
-						if h.Sum32()&16 == 16 {
-							wkt.Encode(geom.MultiPoint{{X: 1, Y: 2}})
-						} else {
-							wkt.Encode(&geom.Bounds{Min: geom.Point{X: 0, Y: 0}, Max: geom.Point{X: 1, Y: 1}})
-						}
+						vproto.Safe(func() {
+							if h.Sum32()&16 == 16 {
+								wkt.Encode(geom.MultiPoint{{X: 1, Y: 2}})
+							} else {
+								wkt.Encode(&geom.Bounds{Min: geom.Point{X: 0, Y: 0}, Max: geom.Point{X: 1, Y: 1}})
+							}
+						})
 					}
 				}
 				buf, err := wkt.Encode(arg)
